@@ -146,7 +146,9 @@ Lemma decode_Settings_enc : forall ss fuel rest,
   decode_Settings fuel (concat (map encode_Setting ss) ++ put_str [] ++ rest) = Ok ss rest.
 Proof.
   induction ss as [|s ss IH]; intros fuel rest Hf Hok.
-  - destruct fuel as [|fuel]; [cbn in Hf; lia|]. reflexivity.
+  - destruct fuel as [|fuel]; [cbn in Hf; lia|].
+    cbn [map concat app decode_Settings]. unfold bind at 1. unfold decode_Setting. unfold bind at 1.
+    rewrite (get_str_put [] rest) by (cbv; reflexivity). reflexivity.
   - destruct fuel as [|fuel]; [cbn in Hf; lia|].
     cbn [forallb] in Hok. apply andb_true_iff in Hok as [Hs Hss].
     cbn [map concat decode_Settings]. rewrite <- app_assoc.
